@@ -3,21 +3,20 @@ import time
 from lib.common import run_tasks, finish
 
 MOD = 'contracts.random_native'
-# (native, number of slices of its input domain)
-REAL = [('randrange', 2), ('randint', 1), ('random_unit_vector', 1), ('choice', 1), ('choices', 2), ('sample', 3), ('shuffle', 2),
-        ('random_permutation', 1), ('random_derangement', 2), ('getrandbits', 1), ('random', 1), ('uniform', 1)]
-ENUM = [('uni_randrange', 1), ('uni_randint', 1), ('uni_unit_vector', 1), ('uni_choice', 1), ('uni_choices', 1), ('uni_shuffle', 4),
-        ('uni_permutation', 4), ('uni_derangement', 4), ('uni_sample_list', 4), ('uni_sample_range', 4), ('uni_getrandbits', 1),
-        ('uni_random', 1), ('uni_uniform', 1)]
+# number of slices of the input domain of the heavier natives (default 1); the edge_* natives are bundled in two tasks
+SLICES = {'uni_shuffle': 4, 'uni_permutation': 4, 'uni_derangement': 4, 'uni_sample_list': 4, 'uni_sample_range': 4, 'randrange': 2, 'choices': 2,
+          'sample': 3, 'shuffle': 2, 'random_derangement': 2}
 
 
 def run(tier, seed):
     t0 = time.time()
     import contracts.random_native as M
     edge = [n for n in M.NATIVE if n.startswith('edge_')]
+    rest = [n for n in M.NATIVE if not n.startswith('edge_')]
+    rest.sort(key=lambda n: (not n.startswith('uni_'), -SLICES.get(n, 1)))        # heavy enumerations first: balanced pool
     tasks = []
-    # heavy enumerations first so that the pool is balanced
-    for name, k in ENUM + REAL:
+    for name in rest:
+        k = SLICES.get(name, 1)
         tasks += [(MOD, 'run_slice', (name, tier, i, k)) for i in range(k)]
     tasks += [('lib.native', 'run_natives', (MOD, edge[i::2], tier)) for i in range(2)]
     obs = run_tasks(tasks)
